@@ -8,7 +8,7 @@ use duckscript::types::runtime::Context;
 use serde_json::{json, Value};
 use std::sync::{Arc, Mutex};
 
-const VALS: [&str; 24] = ["", " ", "   ", "a", "a b", " a ", "x=y", "\\", "a\\b", "é", "0", "false", "-r", "two  spaces", "\t", "a\t", "\ta", "a\tb", "\u{a0}", "=a", "=", "a=", ":a", "!a"];
+const VALS: [&str; 27] = ["", " ", "   ", "a", "a b", " a ", "x=y", "\\", "a\\b", "é", "0", "false", "-r", "two  spaces", "\t", "a\t", "\ta", "a\tb", "\u{a0}", "=a", "=", "a=", ":a", "!a", "a b\\", "C:\\my dir\\", "x\\"];
 
 pub fn gen(r: &mut Rng) -> Value {
     if r.chance(1, 5) {
